@@ -1,5 +1,5 @@
 ----------------------------- MODULE VerifyHistory_MC -----------------------------
 EXTENDS VerifyHistory, Json
-ExportCase == (k = 1) => PrintT(<<"CASE", ToJson([fault |-> fault, shared |-> shared, hist |-> hist,
+ExportCase == (k = 1) => PrintT(<<"CASE", ToJson([fault |-> fault, shared |-> shared, mid |-> mid, hist |-> hist,
                                                   worlds |-> [T |-> Twin(fault), W |-> fault, B |-> WorldOf("B", fault)]])>>)
 =================================================================================
